@@ -429,6 +429,51 @@ def oracle(res):
     return None
 
 
+def two_managers_check():
+    """References that live in ANOTHER manager's server: a proxy of an object of manager A stored in a container hosted by
+    manager B (or passed to a call on an object of B) and then dropped there must give its reference back to A. Not part of
+    the Coq history model (one manager); judged here."""
+    from multiprocessing.managers import dispatch
+    from mpservice.multiprocessing.server_process import ServerProcess
+
+    def table(m):
+        conn = m._Client(m._address, authkey=m._authkey)
+        try:
+            return {d['id']: (d['refcount:'], d['type']) for d in dispatch(conn, None, 'debug_info')}
+        finally:
+            conn.close()
+
+    def settle(m, want, what, problems):
+        t0 = time.time()
+        while time.time() - t0 < 10:
+            got = sorted(v for v in table(m).values())
+            if got == want:
+                return
+            time.sleep(0.05)
+        problems.append(f'two managers, {what}: manager A hosts {got}, expected {want}')
+
+    problems = []
+    with ServerProcess() as A, ServerProcess() as B:
+        a = A.list([1, 2, 3])
+        holder = B.list()
+        holder.append(a)                      # a proxy of A's list now lives inside B's server
+        settle(A, [(2, 'list')], 'client proxy + a proxy stored in a list of B', problems)
+        del a
+        settle(A, [(1, 'list')], 'only the proxy stored in B is left', problems)
+        if holder[0][1] != 2:
+            problems.append('two managers: the object is not usable through the proxy stored in B')
+        holder.pop()                          # dropped inside B: the reference must go back to A
+        settle(A, [], 'the proxy stored in B was removed', problems)
+        d = B.dict()
+        a2 = A.list(['x'])
+        d['k'] = a2
+        del a2
+        settle(A, [(1, 'list')], 'a proxy stored in a dict of B', problems)
+        del d                                 # the container itself goes away
+        settle(A, [], 'the dict of B that held the proxy was destroyed', problems)
+    return problems
+
+
 def impl_main(argv):
     import logging
     logging.disable(logging.CRITICAL)
@@ -455,6 +500,11 @@ def impl_main(argv):
             res = {'crash': repr(e)[:300] + ' | ' + traceback.format_exc()[-500:], 'ops': [], 'steps': [], 'problems': [],
                    'final_table': {}, 'mem_left': {}}
         res['elapsed'] = round(time.time() - t0, 2)
+        if spec is specs[0] and not res.get('crash'):
+            try:
+                res['problems'] = list(res['problems']) + two_managers_check()
+            except BaseException as e:  # noqa
+                res['problems'] = list(res['problems']) + ['two managers: the scenario crashed: ' + repr(e)[:200]]
         orc = oracle(res)
         if isinstance(orc, tuple):
             orc, key = orc
